@@ -2,9 +2,9 @@
 _set_automatic_name), Document.get_style / get_styles, Styles/Content.get_style(s) and
 _get_style_contexts, Element.get_style(s)/_get_style_tagname and make_xpath_query, on the lxml model.
 
-The document is a Document whose two XML parts are real Styles / Content objects over small symdom
-trees holding the style containers (office:font-face-decls, office:styles, office:automatic-styles,
-office:master-styles); no zip container is involved.  Style names are symbolic strings; the family
+The document is a real Document over an in-memory container (memdoc.py) whose styles.xml and
+content.xml hold the empty style containers (office:font-face-decls, office:styles,
+office:automatic-styles, office:master-styles); no zip or filesystem is involved.  Style names are symbolic strings; the family
 is concrete per process (VERIF_FAMILY), the automatic/default flags are symbolic where the family
 allows them.  Oracle (a table written from the ODF schema): the inserted style sits in the container
 its family/flags require, each container holds at most one style per (tag, family, name), lookup by
@@ -22,38 +22,13 @@ from vlib.hk import done
 
 FAMILY = os.environ.get("VERIF_FAMILY", "paragraph")
 
-STYLES_XML = (
-    '<office:document-styles><office:font-face-decls/><office:styles/>'
-    '<office:automatic-styles/><office:master-styles/></office:document-styles>'
-)
-CONTENT_XML = (
-    '<office:document-content><office:font-face-decls/><office:automatic-styles/>'
-    '<office:body><office:text/></office:body></office:document-content>'
-)
+from memdoc import memdoc
 
 
-def _part(cls, xml, name):
-    part = cls.__new__(cls)
-    part.part_name = name
-    part.container = None
-    root = Element.from_tag(xml)._Element__element
-    part._XmlPart__tree = ET._ElementTree(root)
-    part._XmlPart__root = None
-    return part
-
-
-class Doc(Document):
-    def __init__(self):
-        self._styles = _part(Styles, STYLES_XML, "styles.xml")
-        self._content = _part(Content, CONTENT_XML, "content.xml")
-
-    @property
-    def styles(self):
-        return self._styles
-
-    @property
-    def content(self):
-        return self._content
+def Doc():
+    """a real Document (Document.__init__ runs) over an in-memory container whose styles.xml and
+    content.xml hold the empty style containers"""
+    return memdoc()
 
 
 def containers(doc):
